@@ -14,6 +14,7 @@ import (
 	"strings"
 	"sync"
 	"sync/atomic"
+	"time"
 
 	"github.com/facebookincubator/dns/dnsrocks/dnsdata"
 
@@ -172,6 +173,7 @@ type levelA struct {
 
 	fails map[uint32]failBits // sets (of size < current level) with at least one failing client
 
+	skipped                          int64
 	sets, evals, nontrivial, failing int64
 	setsBySize                       [5]int64
 }
@@ -318,7 +320,7 @@ func describe(got int, mlen uint8, et string) string {
 }
 
 // run enumerates all sets of size 1..k, level by level.
-func (a *levelA) run(k int) {
+func (a *levelA) run(k int, deadline time.Time) {
 	nItems := len(a.alpha) * 2
 	canon := canonIndex(a.alpha)
 	for size := 1; size <= k; size++ {
@@ -341,6 +343,10 @@ func (a *levelA) run(k int) {
 		store := size < k
 		vlib.ParallelFor(len(tasks), func(ti int) {
 			t := tasks[ti]
+			if time.Now().After(deadline) {
+				atomic.AddInt64(&a.skipped, 1)
+				return
+			}
 			local := map[uint32]failBits{}
 			ids := make([]int, 0, size)
 			set := make([]decl, 0, size)
@@ -406,6 +412,10 @@ func (a *levelA) run(k int) {
 		for k, v := range next {
 			a.fails[k] = v
 		}
+	}
+	if a.skipped > 0 {
+		a.r.Exhaustive = false
+		a.r.Note("level A: %d enumeration tasks (sets sharing their first two members) skipped by the wall-clock cap", a.skipped)
 	}
 }
 
